@@ -27,7 +27,7 @@ CONFIG = {
                   "the model echoes the implementation (counted in the distribution as read.in-outer-frame hints); the oracle checks them "
                   "against the source values at opt-level 0 only. That rustc opens a new lexical block after each `let` (which is what makes "
                   "'declared later' a block-range question) is an assumption about the compiler, sampled by the oracle.",
-    "runs": {"quick": [{"n": 6, "timeout": 900}], "thorough": [{"n": 40, "timeout": 6000}]},
+    "runs": {"quick": [{"n": 4, "timeout": 900}], "thorough": [{"n": 40, "timeout": 6000}]},
     "shrinkable": False,
     "trivial_answers": ["ok", "-", "bad-op", "", "none", "nofn", "noframe", "exit"],
     "assumptions": [
